@@ -16,6 +16,8 @@ import (
 )
 
 type Verdict struct {
+	AltEx  *Exec // set when the obligation was (also) tried in the other integer encoding: retry there
+	AltObl *Obl
 	Obl     *Obl
 	Status  string // unsat | sat | unknown | timeout | error
 	Solver  string
